@@ -248,12 +248,19 @@ func (e *Exec) sendStmt(st *State, x *ssa.Send) {
 // (the channel) and `val` (the message) besides parameters and locals. A clause whose expression
 // does not type-check for this channel's element type does not apply to it.
 func (e *Exec) chanClauses(st *State, kind string, ch, val Val, cond string, pos token.Pos) {
+	e.chanClausesAlt(st, kind, ch, val, cond, pos, 0)
+}
+
+// alternatives: number of other cases of the select this communication is part of (0: a plain,
+// blocking send or receive) - `before_send ... && alternatives >= 1` demands a way out.
+func (e *Exec) chanClausesAlt(st *State, kind string, ch, val Val, cond string, pos token.Pos, alternatives int) {
 	if e.fc == nil || !e.ownCode() || len(e.fc.Lists[kind]) == 0 || ch.S == "" {
 		return
 	}
 	for i, cl := range e.fc.Lists[kind] {
 		c := e.specEnvLocals(st)
 		c.vars["ch"] = ch
+		c.vars["alternatives"] = Val{T: tInt, S: e.sc.idxLit(int64(alternatives))}
 		if val.S != "" || val.A != nil || val.Tup != nil {
 			c.vars["val"] = val
 		}
@@ -316,7 +323,11 @@ func (e *Exec) selectStmt(st *State, x *ssa.Select) {
 			chosen := eq(idx, e.sc.idxLit(int64(i)))
 			if sst.Dir == types.SendOnly {
 				sv := e.val(st, sst.Send)
-				e.chanClauses(st, "before_send", ch, sv, chosen, x.Pos())
+				alts := len(x.States) - 1
+				if !x.Blocking {
+					alts++
+				}
+				e.chanClausesAlt(st, "before_send", ch, sv, chosen, x.Pos(), alts)
 				cnt := e.sendCount(st)
 				st.mem["ghost|send_count"] = e.sc.define("g.send_count", e.memSort["ghost|send_count"],
 					ite(chosen, fmt.Sprintf("(store %s %s %s)", cnt, ch.S, e.add(fmt.Sprintf("(select %s %s)", cnt, ch.S), e.sc.idxLit(1))), cnt))
